@@ -1019,7 +1019,9 @@ func (fr *Frame) execSelect(i *ssa.Select) {
 			v := fr.freshVal("sel.recv", tup.At(n).Type())
 			savedReach := fr.reach
 			fr.reach = vc.define("selcase", SBool, and(savedReach, eq(idx.T, num(int64(si)))))
+			fr.selectOk = okv.T
 			fr.onRecv(ch, v, s.Pos)
+			fr.selectOk = ""
 			fr.onSelectCase(i, si, ch)
 			fr.reach = savedReach
 			out = append(out, v)
